@@ -38,6 +38,32 @@ def model_check(rep, tier):
             raise MachineryError("TLC failed: %s\n%s" % (r.error, r.tail(20)))
 
 
+def driver_model_check(rep):
+    """Simulate.tla: the simulate_script driver as a program over the Engine actions."""
+    r = tlc.run("MC_Simulate", cfg="MC_Simulate", coverage=True, timeout=900)
+    rep.add_tlc("MC_Simulate (driver: terminates, returns the record of a completed run, releases the engine)", r)
+    if not r.ok:
+        if r.violated:
+            rep.violation("model", "model:driver:" + r.violated, {"tlc": r.tail(60)})
+        else:
+            raise MachineryError("TLC failed: %s\n%s" % (r.error, r.tail(20)))
+    cov = r.coverage()
+    never = [a for a in ("DBegin", "DSetup", "DRunJ", "DProgress", "DFetch", "DRelease", "DReturn") if cov.get(a, (0, 0))[1] == 0]
+    if never:
+        raise MachineryError("vacuous driver model run, actions never taken: %s (coverage keys %s)" % (never, sorted(cov)[:30]))
+    # a driver that leaves the loop while the engine says "continue" must be refuted
+    d = tlc.mutant_dir("driver_loop_inverted", "Simulate",
+                       [('pc\' = (IF obs\'.ret THEN "loop" ELSE "fetch")', 'pc\' = (IF obs\'.ret THEN "fetch" ELSE "loop")')])
+    m = tlc.run("MC_Simulate", cfg="MC_Simulate", wd=d, timeout=600)
+    rep.selftest("spec-mutant driver leaves the loop on 'continue'", m.violated in ("ReturnsCompletedRun", "LoopOnlyWhileUnfinished", "Terminates"),
+                 "violated=%s" % m.violated)
+    d = tlc.mutant_dir("driver_no_release", "Simulate",
+                       [('DRelease  == pc = "release" /\\ Finalize(DriverObj) /\\ pc\' = "released" /\\ Count("finalize") /\\ UNCHANGED out',
+                         'DRelease  == pc = "release" /\\ IsComplete(DriverObj) /\\ pc\' = "released" /\\ UNCHANGED <<out, ncalls>>')])
+    m = tlc.run("MC_Simulate", cfg="MC_Simulate", wd=d, timeout=600)
+    rep.selftest("spec-mutant driver does not release the engine", m.violated == "ReturnsCompletedRun", "violated=%s" % m.violated)
+
+
 def histories(tier, seed):
     rng = random.Random(seed * 7919 + 10)
     out = []
@@ -133,7 +159,9 @@ def run(tier, selftest=False, only=None):
                 "(alphabet: setup x3 configs, iterate, iterate_n(2), run(0), sample, get_progress, is_complete, "
                 "get_output, finalize) x engine kinds, plus seeded random longer ones and sub-molecule scripts; "
                 "each is executed on the engine built from the working tree in a forked child and the recorded "
-                "trace validated against Engine.tla by TLC; distinct = distinct recorded traces with > 2 events")
+                "trace validated against Engine.tla by TLC; the driver simulate_script is modelled in Simulate.tla (TLC: terminates, "
+                "returns the record of a completed run, releases the engine) and the calls it makes on a recording proxy engine are "
+                "validated against Trace_Simulate.tla; distinct = distinct recorded traces with > 2 events")
     rep.assumptions = [
         "run(ms) is exercised with ms = 0..2; its slice length is whatever the wall clock gives and is validated, not controlled",
         "iterate_n(k) with k >= 0",
@@ -154,6 +182,11 @@ def run(tier, selftest=False, only=None):
         H.check_histories(rep, ths, "termination")
     if sel("steps"):
         step_counts(rep)
+    if sel("driver"):
+        driver_model_check(rep)
+        dh = H.driver_histories(tier, seed)
+        H.check_driver_histories(rep, dh)
+        rep.extra["driver_histories"] = len(dh)
     if selftest or sel("selftest") and only:
         self_test(rep)
     return rep.finish()
@@ -176,6 +209,23 @@ def self_test(rep):
     t5 = copy.deepcopy(tr); t5["id"] = "m5"; t5["ev"][2]["ns"] -= 1; muts.append(("manual sample not recorded", t5))
     acc, _ = engine_val.validate([m for _, m in muts])
     for name, m in muts:
+        rep.selftest(name, m["id"] not in acc)
+    # the same for the driver binding
+    h = {"id": "sd", "kinds": {"e1": "euler"}, "cfgs": H.cfgs_for("euler", "grid"), "calls": [["simulate", "e1", "A", 1]], "view": "own"}
+    tr = engine_val.record([h])[0]
+    acc, _ = engine_val.validate([tr], cfg="Trace_Simulate", module="Trace_Simulate")
+    if "sd" not in acc:
+        raise MachineryError("self-test baseline driver trace was rejected: %s" % [e.get("call") for e in tr["ev"]])
+    names = [e["call"] for e in tr["ev"]]
+    dm = []
+    t1 = copy.deepcopy(tr); t1["id"] = "d1"; del t1["ev"][names.index("finalize")]; dm.append(("driver trace without the finalize call", t1))
+    t2 = copy.deepcopy(tr); t2["id"] = "d2"; t2["ev"][-1]["outok"] = False; dm.append(("driver returns something else than its get_output", t2))
+    t3 = copy.deepcopy(tr); t3["id"] = "d3"; i = names.index("get_output"); t3["ev"][i], t3["ev"][i + 1] = t3["ev"][i + 1], t3["ev"][i]
+    dm.append(("driver fetches the output after releasing the engine", t3))
+    t4 = copy.deepcopy(tr); t4["id"] = "d4"; t4["ev"].insert(names.index("get_output"), copy.deepcopy(t4["ev"][names.index("run")]))
+    dm.append(("driver runs again after the engine reported completion", t4))
+    acc, _ = engine_val.validate([m for _, m in dm], cfg="Trace_Simulate", module="Trace_Simulate")
+    for name, m in dm:
         rep.selftest(name, m["id"] not in acc)
 
 
